@@ -233,6 +233,20 @@ def _dim(tier):
 def definition_cases(draw, tier):
     m, n = draw(_dim(tier)), draw(_dim(tier))
     A, pat = draw(qm(m, n, 60))
+    if draw(st.integers(0, 7)) == 0:
+        # one "flat" line (many entries of modulus 1) that carries the largest sum next to "spiky" lines (a single entry
+        # of modulus 0.75 * length): largest sum and largest 2-norm belong to different lines
+        Lg = draw(st.integers(6, 12))
+        k = draw(st.integers(2, 3))
+        A = np.zeros((Lg, k, 4))
+        for i in range(Lg):
+            A[i, 0] = draw(gen.unit_q(exact=True))
+        for j in range(1, k):
+            A[draw(st.integers(0, Lg - 1)), j] = draw(gen.unit_q(exact=True)) * (0.75 * Lg)
+        if draw(st.booleans()):
+            A = np.ascontiguousarray(np.swapaxes(A, 0, 1))
+        A = A * 10.0 ** draw(st.sampled_from([0, 0, -20, 20]))
+        pat = "flat_and_spiky"
     return {"A": A, "pat": pat}
 
 
